@@ -16,9 +16,10 @@
 (*                        cache, would be at fault);                                                                     *)
 (*   PunchInv / Reopen / Quiesce   only with no read in flight (harness discipline).                                     *)
 (* KF_C17A (environment KF_C17A=1) additionally accepts the recorded defect C17a, and only it: once the media file of f   *)
-(* is larger than the source (an evict-to-end at an offset past the end EXTENDS the media file) and the directory has    *)
-(* been reopened, the new pool instance believes that size; reads of f and the source / media reads made for them are   *)
-(* then not judged until the next reopen finds the media file no larger than the source.                                *)
+(* is larger than the source (an evict-to-end at an offset past the end EXTENDS the media file), the next store created   *)
+(* for f - by a new pool instance, or by the same pool once the idle store has expired - believes that size; reads of f  *)
+(* and the source / media reads made for them are then not judged until a reopen finds the media file no larger than    *)
+(* the source.                                                                                                           *)
 (* The specification is deterministic: an execution is accepted iff every event satisfies its condition; the first      *)
 (* event that does not is reported with the reason printed as <<"WHY", line, reason>>.                                   *)
 EXTENDS Naturals, Integers, Sequences, FiniteSets, TLC, Json, IOUtils
@@ -118,9 +119,9 @@ CutAt(S, n) == ISub(S, n, INF)
 MediaTrunc == /\ Ev("MediaTrunc")
               /\ IF R.ret = 0 /\ R.g \in 1..MAXG /\ R.f \in 0..NF
                  THEN /\ med' = SetM(R.g, [w |-> CutAt(M(R.g).w, R.len), good |-> CutAt(M(R.g).good, R.len), size |-> R.len])
-                      /\ big' = Bigger(R.f, R.len)
-                 ELSE UNCHANGED <<med, big>>
-              /\ UNCHANGED <<cfg, pend, flt, bad>>
+                      /\ big' = Bigger(R.f, R.len) /\ bad' = [bad EXCEPT ![R.f] = @ \/ R.len > Size(R.f)]
+                 ELSE UNCHANGED <<med, big, bad>>
+              /\ UNCHANGED <<cfg, pend, flt>>
 MediaPunch == /\ Ev("MediaPunch") /\ GOK
               /\ IF R.ret = 0
                  THEN med' = SetM(R.g, [w |-> ISub(M(R.g).w, R.off, R.off + R.len), good |-> ISub(M(R.g).good, R.off, R.off + R.len),
